@@ -21,7 +21,8 @@ Definition exp_scope_get_combined_scope : list sop :=
   PIf "not s1" [
     PTok "return {LEAVES_SCOPE: []}"] [];
   PTok "s2 := ordered keys of chain.from_iterable(s1)";
-  PTok "return {varname: uniq_chain((scope.get(varname, [_UNINITIALIZED]) for scope in s1)) for varname in s2}"].
+  PTok "raw: def nodes_in(scope: SubScope, varname: Varname) -> Sequence[Node]: nodes = scope.get(varname) if nodes is None or (not nodes and isinstance(varname, CompositeVariable)): return [_UNINITIALIZED] return nodes";
+  PTok "return {varname: uniq_chain((nodes_in(scope, varname) for scope in s1)) for varname in s2}"].
 
 Definition exp_scope_get_local : list sop :=
   [
@@ -124,9 +125,13 @@ Definition exp_visit_Try : list sop :=
     PSub "s1" [
       PSupp "s2" [
         PCall "visit_try_except(node)"]];
-    PSub "_" [
+    PSub "s3" [
       PCombine ["s1"];
       PVisit "finalbody"];
+    PIf "_leaves_enclosing_loop(node) or LEAVES_LOOP in s3" [
+      PTok "scope = self.scopes.current_scope()";
+      PIf "isinstance(scope, FunctionScope) and LEAVES_SCOPE not in s3" [
+        PTok "scope.current_loop_scopes.append(s3)"] []] [];
     PCombine ["s2"];
     PVisit "finalbody"] [
     PCall "visit_try_except(node)"]].
